@@ -5,6 +5,7 @@ f9_0:
   ret
   call f11_0
   call f20_2
+  mov wvsv0@GOTPCREL(%rip),%rax
   ret
 .section .text.f9_1,"ax",@progbits
 .globl f9_1
@@ -20,4 +21,6 @@ f9_2:
   call f1_0
   call f18_1
   call f25_1
+  mov wvsv1@GOTPCREL(%rip),%rax
+  mov wvsv1(%rip),%rax
   ret
